@@ -3,6 +3,9 @@
 package plugin
 
 import (
+	"syscall"
+	"os"
+	"net"
 	"encoding/json"
 	"errors"
 	"fmt"
@@ -57,6 +60,18 @@ type c13Case struct {
 	Addrs  []vfIP `json:"addrs"`
 	Stanza int    `json:"stanza"`
 	Fail   bool   `json:"source_fails,omitempty"`
+	// Transient: the source fails this many times in a row with a temporary error
+	// (EINTR / EAGAIN, bare or wrapped) before it answers; kind selects the error value.
+	Transient     int `json:"transient_failures,omitempty"`
+	TransientKind int `json:"transient_kind,omitempty"`
+}
+
+// vfTransient are error values a listing interrupted by a signal / a busy netlink
+// socket produces.
+var vfTransient = []error{
+	syscall.EINTR,
+	fmt.Errorf("netlink receive: %w", syscall.EAGAIN),
+	&net.OpError{Op: "receive", Net: "netlink", Err: os.NewSyscallError("recvmsg", syscall.EINTR)},
 }
 
 // c13Expected is the reference: a set comprehension from the statement.
@@ -106,9 +121,14 @@ func c13Run(c c13Case) (opts []ndp.Option, err error, panicked any) {
 		TimeNow:           func() time.Time { return vfEpoch },
 	}
 	in := vfIPs(c.Addrs)
+	ncall := 0
 	p.Addrs = func() ([]system.IP, error) {
 		if c.Fail {
 			return nil, errors.New("verif: injected address listing failure")
+		}
+		ncall++
+		if ncall <= c.Transient {
+			return nil, vfTransient[c.TransientKind]
 		}
 		// A fresh copy on every call, as the OS would give.
 		return append([]system.IP(nil), in...), nil
@@ -143,6 +163,9 @@ func c13Check(c c13Case) [][2]string {
 			out = append(out, [2]string{"C13:source-failure-swallowed", "address source failed but Apply returned nil (advertising " + fmt.Sprint(c13Describe(got)) + ")"})
 		}
 		return out
+	}
+	if err != nil && c.Transient > 0 {
+		return out // the listing did fail during this build: failing RA generation is right
 	}
 	if err != nil {
 		return [][2]string{{"C13:unexpected-error", "Apply failed: " + err.Error()}}
@@ -225,7 +248,7 @@ func c13Nontrivial(c c13Case) bool {
 func TestVerifC13(t *testing.T) {
 	r := ev.Begin("C13", "enum")
 	defer r.End(t)
-	r.Rule = "address lists = all subsets (size<=K) of a 13-address pool (GUA/ULA/link-local/IPv4, /48 /64 /128, every exclusion flag, several hosts per /64), each in all permutations, plus each list with one element duplicated, x 3 stanza variants, + failing source; non-trivial = >=1 eligible address and (an excluded address, a shared /64 or >=2 distinct /64s); distinct = distinct ordered list x stanza"
+	r.Rule = "address lists = all subsets (size<=K) of a 13-address pool (GUA/ULA/link-local/IPv4, /48 /64 /128, every exclusion flag, several hosts per /64), each in all permutations, plus each list with one element duplicated, x 3 stanza variants, + failing source + source failing transiently (EINTR/EAGAIN, bare and wrapped) 1..5 times in a row before answering; non-trivial = >=1 eligible address and (an excluded address, a shared /64 or >=2 distinct /64s); distinct = distinct ordered list x stanza"
 	r.Assumptions = []string{"address source replaced by an injected function (Prefix.Addrs); rtnetlink decoding not covered"}
 
 	if r.Replay != nil {
@@ -276,6 +299,17 @@ func TestVerifC13(t *testing.T) {
 		}
 		return true
 	})
+	// A source that fails transiently 1..5 times in a row, then answers: the build either
+	// fails or advertises exactly what the answer calls for (never "nothing, no error").
+	for kind := range vfTransient {
+		for n := 1; n <= 5; n++ {
+			c := c13Case{Addrs: []vfIP{c13Pool[0], c13Pool[3]}, Stanza: 0, Transient: n, TransientKind: kind}
+			r.Case(ev.JSON(c), true)
+			for _, v := range c13Check(c) {
+				r.Violation(v[0], v[1], c)
+			}
+		}
+	}
 	// Failing source for every stanza.
 	for s := range c13Stanzas {
 		c := c13Case{Stanza: s, Fail: true}
